@@ -13,7 +13,11 @@ Decides (on Doc::render_console, colourless and colour builds):
                    parameter (run() passes info.max_width, C11).
  S splitter        Splitter::next only ever yields sub-slices of its input (text is never synthesised), a single space, or
                    structural chunks.
-Does not decide: the numeric bound on line length (byte vs char counts, wrap threshold)."""
+ W wrap condition the line break before a chunk that does not fit depends only on `position + chunk length > max_width` and on
+                   the output being non-empty (no further condition can suppress it).
+ K cursor / skip   the payload cursor advances exactly once per text token on every path; Skip::push at BlockStart(b) and Skip::pop
+                   at BlockEnd(b) are paired for every block kind on every path (short help = exactly the first paragraph).
+Does not decide: the numeric bound on line length (byte vs char counts)."""
 import re
 from core import *
 from dataflow import *
